@@ -21,6 +21,34 @@ def _c():
     return _ctx.cur()
 
 
+# Spec-registered callbacks fn(kind, old_term, other_term, new_term, ty) -> z3 Bool | None, assumed after `sort` /
+# `extend` of a SymVec (kind "sort" | "extend"): facts about SPEC-DEFINED functions of the list that the engine cannot
+# derive ("a sum is invariant under permutation").  Each one is a trusted fact of the spec that registers it.
+HOOKS = []
+
+
+def _run_hooks(kind, old, other, new, ty):
+    for h in HOOKS:
+        f = h(kind, old, other, new, ty)
+        if f is not None:
+            _c().assume(f)
+
+
+def _consts(t, limit=400):
+    """the uninterpreted constants of a (small) term"""
+    out, stack, seen = [], [t], set()
+    while stack and len(seen) < limit:
+        x = stack.pop()
+        if x.get_id() in seen:
+            continue
+        seen.add(x.get_id())
+        if z3.is_const(x) and x.decl().kind() == z3.Z3_OP_UNINTERPRETED:
+            out.append(x)
+        elif z3.is_app(x):
+            stack.extend(x.children())
+    return out
+
+
 class Vec(Ty):
     def __init__(self, elem):
         self.elem = elem
@@ -186,7 +214,67 @@ class SymVec:
             for x in vs:
                 self.append(x)
             return
+        if isinstance(vs, SymVec) and str(vs._ty.sort()) == str(self._ty.sort()):
+            # additive: the concatenation as a lambda array (both terms are read first: `v.extend(v)` doubles v)
+            self._ty.assume_wf(self.term)
+            vs._ty.assume_wf(vs.term)
+            old, other = self.term, vs.term
+            a, n, b, m = self.arr(), self._len(), vs.arr(), vs._len()
+            k = z3.Int("vec_ext_k")
+            new = self._ty.mk(z3.Lambda([k], z3.If(k < n, z3.Select(a, k), z3.Select(b, k - n))), n + m)
+            self._loc.set(new)
+            _run_hooks("extend", old, other, self.term, self._ty)
+            return
         raise OutOfReach("Vec.extend with a symbolic argument")
+
+    def sort(self, key=None, reverse=False):
+        """list.sort() (additive): a fresh array that is ordered by `key` (pairwise) and a permutation of the old
+        one - two index maps pi / pinv, mutually inverse on [0, n), with new[i] == old[pi[i]].  The permutation
+        fact, instantiated on an index i, registers pi[i] as an instantiation term, so that an element-wise fact
+        about the old list (class invariant) reaches the elements of the sorted list."""
+        from .spec import forall, implies
+        from . import types as T
+        c = _c()
+        ty = self._ty
+        ty.assume_wf(self.term)
+        old = self.term
+        a, n = self.arr(), self._len()
+        ia = z3.ArraySort(z3.IntSort(), z3.IntSort())
+        p = c.fresh("sorted_arr", z3.ArraySort(z3.IntSort(), ty.elem.sort()))
+        pi, pinv = c.fresh("sort_pi", ia), c.fresh("sort_pinv", ia)
+
+        def k_of(t):
+            x = ty.elem.wrap(t)
+            return key(x) if key is not None else x
+
+        def ordered(i):
+            def inner(j):
+                x, y = k_of(z3.Select(p, i.t)), k_of(z3.Select(p, j.t))
+                return implies(mk_bool(z3.And(0 <= i.t, i.t < j.t, j.t < n)), (x >= y) if reverse else (x <= y))
+            return forall(T.Int, inner, "so_j")
+
+        def _derived(t):
+            return any(str(x) in (str(pi), str(pinv)) for x in _consts(t))
+
+        def perm(i):
+            pii = z3.Select(pi, i.t)
+            if getattr(c, "inst_depth", 0) > 0 and not _derived(i.t):
+                c.note_term(pii)
+            return implies(mk_bool(z3.And(0 <= i.t, i.t < n)), mk_bool(z3.And(
+                0 <= pii, pii < n, z3.Select(p, i.t) == z3.Select(a, pii), z3.Select(pinv, pii) == i.t)))
+
+        def perm_inv(j):
+            pj = z3.Select(pinv, j.t)
+            return implies(mk_bool(z3.And(0 <= j.t, j.t < n)), mk_bool(z3.And(
+                0 <= pj, pj < n, z3.Select(pi, pj) == j.t)))
+        before = len(c.decisions)
+        c.assume_value(forall(T.Int, ordered, "so_i"))
+        c.assume_value(forall(T.Int, perm, "sp_i"))
+        c.assume_value(forall(T.Int, perm_inv, "sp_j"))
+        if len(c.decisions) != before:
+            raise OutOfReach("list.sort(): the key function forks on a generic element")
+        self._loc.set(ty.mk(p, n))
+        _run_hooks("sort", old, None, self.term, ty)
 
     def __iter__(self):
         i = 0
